@@ -17,13 +17,27 @@ fn gen_def(p: &mut Pool) -> OptSpec {
     for _ in 0..p.rng.below(3) {
         fields.push(p.named_field());
     }
+    let mut nested = false;
     for _ in 0..p.rng.range(1, 2) {
-        fields.push(p.adjacent_group());
+        if p.rng.chance(1, 5) {
+            fields.push(p.adjacent_group_nested());
+            nested = true;
+        } else {
+            fields.push(p.adjacent_group());
+        }
         if p.rng.chance(1, 2) {
             fields.push(p.named_field());
         }
     }
-    if p.rng.chance(1, 4) && fields.len() < 9 {
+    if nested && p.rng.chance(2, 3) {
+        // words that fall out of a block have somewhere to go
+        let mut it = p.pos_item(Strict::Any);
+        if let Leaf::Pos { ty, .. } = &mut it.leaf {
+            *ty = Ty::Os;
+        }
+        let id = p.id();
+        fields.push(Spec::wrap(W::Many { catch: false }, id, Spec::Item(it)));
+    } else if p.rng.chance(1, 4) && fields.len() < 9 {
         // adjacent subcommand chain: `cmd1 --a cmd2 --b cmd1 ..`
         fields.push(p.adjacent_command_chain());
     } else if p.rng.chance(1, 2) {
@@ -67,9 +81,12 @@ fn member_required(spec: &OptSpec, id: Id) -> bool {
 fn block_tokens(spec: &Spec, v: &V, out: &mut Vec<(Vec<Id>, Vec<Vec<u8>>)>) {
     fn leaves(v: &V, out: &mut Vec<Vec<u8>>) {
         match v {
-            V::Field(_, x) => match &**x {
+            V::Field(id, x) => match &**x {
                 V::Bytes(b) => out.push(b.clone()),
                 V::Int(i) => out.push(format!("{}", i).into_bytes()),
+                // a flag that was given: located on the line by its name, see `find`
+                V::Bool(true) | V::Unit => out.push(format!("\0flag:{}", id).into_bytes()),
+                V::Tag(t) if *t == 2 * id + 1 => out.push(format!("\0flag:{}", id).into_bytes()),
                 other => leaves(other, out),
             },
             V::Opt(Some(x)) | V::Variant(_, x) => leaves(x, out),
@@ -137,6 +154,20 @@ fn contiguity_violation(spec: &OptSpec, argv: &[Vec<u8>], v: &V) -> Option<Strin
     }
     // where does each value token of the whole result sit on the line
     let find = |tok: &[u8]| -> Option<usize> {
+        if let Some(id) = tok.strip_prefix(b"\0flag:") {
+            // a flag of the block: the one item of the line that is exactly one of its names
+            let id: Id = std::str::from_utf8(id).ok()?.parse().ok()?;
+            let item = spec.root.find_item(id)?;
+            let mut names: Vec<Vec<u8>> = Vec::new();
+            for c in &item.names.shorts {
+                names.push(format!("-{}", c).into_bytes());
+            }
+            for l in &item.names.longs {
+                names.push(format!("--{}", l).into_bytes());
+            }
+            let at: Vec<usize> = (0..argv.len()).filter(|i| names.contains(&argv[*i])).collect();
+            return if at.len() == 1 { Some(at[0]) } else { None };
+        }
         // a value that is written twice (a word equal to a command name) cannot be placed
         if argv.iter().filter(|a| a.as_slice() == tok).count() > 1 {
             return None;
@@ -221,6 +252,96 @@ fn contiguity_violation(spec: &OptSpec, argv: &[Vec<u8>], v: &V) -> Option<Strin
         }
     }
     None
+}
+
+/// positional members of adjacent groups that sit under an optional/fallback wrapper inside the
+/// group, per group: (all member ids, optional positional ids)
+fn optional_word_members(s: &Spec, out: &mut Vec<(Vec<Id>, Vec<Id>)>) {
+    fn opt_pos(s: &Spec, under: bool, out: &mut Vec<Id>) {
+        match s {
+            Spec::Item(i) => {
+                if under && i.is_pos() {
+                    out.push(i.id);
+                }
+            }
+            Spec::Wrap { w, inner, .. } => {
+                let u = under
+                    || matches!(
+                        w,
+                        W::Optional { .. }
+                            | W::Fallback
+                            | W::FallbackWithOk
+                            | W::Many { .. }
+                            | W::Collect { .. }
+                    );
+                opt_pos(inner, u, out);
+            }
+            Spec::Seq(xs) | Spec::Alt(xs) | Spec::Adj(xs) => {
+                xs.iter().for_each(|x| opt_pos(x, under, out))
+            }
+            _ => {}
+        }
+    }
+    match s {
+        Spec::Adj(xs) => {
+            let mut items = Vec::new();
+            for x in xs {
+                x.level_items(&mut items);
+            }
+            let mut o = Vec::new();
+            for x in xs {
+                opt_pos(x, false, &mut o);
+            }
+            out.push((items.iter().map(|i| i.id).collect(), o));
+        }
+        Spec::Wrap { inner, .. } => optional_word_members(inner, out),
+        Spec::Seq(xs) | Spec::Alt(xs) => xs.iter().for_each(|x| optional_word_members(x, out)),
+        Spec::Cmd(c) => optional_word_members(&c.opts.root, out),
+        _ => {}
+    }
+}
+
+fn absent_words_then_word(spec: &OptSpec, units: &[U]) -> bool {
+    let mut groups = Vec::new();
+    optional_word_members(&spec.root, &mut groups);
+    if groups.iter().all(|(_, o)| o.is_empty()) {
+        return false;
+    }
+    let item_of = |u: &U| match &u.kind {
+        UKind::Flag { item, .. } | UKind::Arg { item, .. } | UKind::Word { item, .. } => {
+            Some(*item)
+        }
+        _ => None,
+    };
+    let mut i = 0;
+    while i < units.len() {
+        let b = match units[i].block {
+            Some(b) => b,
+            None => {
+                i += 1;
+                continue;
+            }
+        };
+        let mut j = i;
+        while j + 1 < units.len() && units[j + 1].block == Some(b) {
+            j += 1;
+        }
+        let ids: Vec<Id> = units[i..=j].iter().filter_map(item_of).collect();
+        if let Some((_, opt)) = groups
+            .iter()
+            .find(|(members, _)| ids.first().map_or(false, |f| members.contains(f)))
+        {
+            let absent = !opt.is_empty() && !opt.iter().any(|o| ids.contains(o));
+            let next_is_word = units.get(j + 1).map_or(false, |n| {
+                matches!(n.kind, UKind::Word { .. } | UKind::CmdName { .. })
+            });
+            if absent && next_is_word {
+                return true;
+            }
+        }
+        i = j + 1;
+    }
+    false
 }
 
 struct Broken {
@@ -347,6 +468,39 @@ fn break_blocks(spec: &OptSpec, units: &[U], rng: &mut Rng) -> Vec<Broken> {
             });
         }
     }
+    // a nested member split in two: its near half, then a later member of the block, then an item
+    // of the enclosing level, then the far half (`-a 1 -z -e 2` for `-a [X Y] [-z]`)
+    if idx.len() >= 4 && matches!(units[hi].kind, UKind::Flag { .. }) {
+        let outer = units.iter().position(|u| {
+            u.block.is_none()
+                && u.depth == depth
+                && !u.after_dd
+                && matches!(u.kind, UKind::Flag { .. } | UKind::Arg { .. })
+        });
+        if let Some(oi) = outer {
+            let far = idx[idx.len() - 2];
+            let mut m = units.to_vec();
+            let o = m[oi].clone();
+            let mut y = m[far].clone();
+            y.block = None;
+            // remove the higher index first so the lower one stays valid
+            let (a, b) = if oi > far { (oi, far) } else { (far, oi) };
+            m.remove(a);
+            m.remove(b);
+            // the block's last unit now sits where `far` was (or one left of it)
+            let z_at = m
+                .iter()
+                .rposition(|u| u.block == Some(bid))
+                .unwrap_or(m.len() - 1);
+            m.insert(z_at + 1, o);
+            m.insert(z_at + 2, y);
+            out.push(Broken {
+                units: m,
+                kind: "nested-member-split-around-later-member",
+                sure: false,
+            });
+        }
+    }
     // required member moved away from the block (to the far end of the level's named region)
     let movable: Vec<usize> = idx[1..]
         .iter()
@@ -418,6 +572,12 @@ pub fn run_case(case: &mut Case) {
                 continue;
             }
         };
+        if absent_words_then_word(&b.spec, &units) {
+            // a block whose optional word members are absent, directly followed by a word (or a
+            // command name): the block takes that word, the line denotes something else
+            case.rep.count("skipped:word-right-after-block-with-absent-optional-words");
+            continue;
+        }
         let nblocks = {
             let mut bl: Vec<u32> = units.iter().filter_map(|u| u.block).collect();
             bl.sort_unstable();
